@@ -45,6 +45,7 @@ def run(prog, R, tier="quick", only_rule=None):
     from rules.props import c14
     c14.c14c(prog, R, rid="C03.j")
     c03k(prog, R)
+    c02.c02k(prog, R, rid="C03.l")
 
 
 def norm_bound(p):
